@@ -477,19 +477,50 @@ IPARTS = ["0", "7", "10", "120", "1000000"]
 CANON = re.compile(r"-?(0|[1-9][0-9]*)(\.[0-9]{1,6})?\Z")
 
 
+_DELTAS = {}
+
+
 class ModelFloat(float):
     """A float whose '.Nf' formatting is solver-chosen: sign + integer digits + '.' + N digits — the range of the C
-    formatter over finite floats ('-0.000000' included: -1e-9 formats to it)."""
+    formatter over finite floats ('-0.000000' included: -1e-9 formats to it). The true value is the printed decimal plus
+    a solver-chosen rounding residue `delta` with |delta| < 5e-7 (what '%.6f' may have rounded away); comparisons see the
+    true value, formatting sees the text."""
 
-    def __new__(cls, text):
+    def __new__(cls, text, delta=0.0):
         self = float.__new__(cls, float(text))
         self.text = text
+        self.base = float(text)
+        # kept in a side table: CrossHair's f-string interception deep-realises the formatted object's attributes
+        _DELTAS[id(self)] = delta
         return self
+
+    def _true(self):
+        return self.base + _DELTAS[id(self)] * 1e-9
 
     def __add__(self, o):
         return self          # x + 0.0 keeps the value (and CPython keeps the sign of a negative non-zero x)
 
     __radd__ = __add__
+
+    def __lt__(self, o):
+        return self._true() < o
+
+    def __le__(self, o):
+        return self._true() <= o
+
+    def __gt__(self, o):
+        return self._true() > o
+
+    def __ge__(self, o):
+        return self._true() >= o
+
+    def __eq__(self, o):
+        return self._true() == o
+
+    def __ne__(self, o):
+        return self._true() != o
+
+    __hash__ = float.__hash__
 
     def __format__(self, spec):
         m = re.fullmatch(r"\.(\d+)f", spec)
@@ -500,17 +531,27 @@ class ModelFloat(float):
         return ip + "." + (fr + "0" * places)[:places] if places else ip
 
 
-def _mk_text(neg, ipi, bits):
+def _mk_text(neg, ipi, bits, last_one=False):
     from vf.props.c08 import pick
     ip = pick(IPARTS, ipi)
     frac = ""
     for b in bits:
         frac += "5" if b else "0"
+    if last_one:
+        frac = frac[:-1] + "1"       # a last digit of 1: the smallest printed step
     return ("-" if neg else "") + ip + "." + frac
 
 
-def _check_canonical(out, text, what):
+def _residue(delta, text):
+    """|delta| < 5e-7, and the residue cannot flip the sign of the printed number's true value past zero the wrong way."""
+    assume(-490 < delta < 490)        # residue in units of 1e-9 (an int keeps the unused case fork-free)
+    return delta
+
+
+def _check_canonical(out, text, what, true_value=None):
     from decimal import Decimal
+    if true_value is not None:
+        check(abs(float(out) - true_value) <= 5e-7 + 1e-12, f"{what}: does not parse back within 5e-7 of the value", out, text)
     check(CANON.match(out) is not None, f"{what}: not a plain canonical decimal", out)
     check(out != "-0", f"{what}: produced '-0'", text)
     if "." in out:
@@ -518,23 +559,26 @@ def _check_canonical(out, text, what):
     check(Decimal(out) == Decimal(text), f"{what}: denotes a different number than the formatter output", out, text)
 
 
-def h_format_float(neg: bool, ipi: int, b0: bool, b1: bool, b2: bool, b3: bool, b4: bool, b5: bool) -> None:
+def h_format_float(neg: bool, ipi: int, b0: bool, b1: bool, b2: bool, b3: bool, b4: bool, b5: bool, last_one: bool, delta: int) -> None:
     import srctools.math as sm
-    text = _mk_text(neg, ipi, (b0, b1, b2, b3, b4, b5))
-    out = sm.format_float(ModelFloat(text))
+    text = _mk_text(neg, ipi, (b0, b1, b2, b3, b4, b5), last_one)
+    delta = _residue(delta, text)
+    mf = ModelFloat(text, delta)
+    out = sm.format_float(mf)
     _check_canonical(out, text, "format_float")
 
 
-def h_format_float_w(neg: bool, ipi: int, b0: bool, b1: bool, b2: bool, b3: bool, b4: bool, b5: bool) -> None:
-    h_format_float(neg, ipi, b0, b1, b2, b3, b4, b5)
+def h_format_float_w(neg: bool, ipi: int, b0: bool, b1: bool, b2: bool, b3: bool, b4: bool, b5: bool, last_one: bool, delta: int) -> None:
+    h_format_float(neg, ipi, b0, b1, b2, b3, b4, b5, last_one, delta)
     raise Fail("reached")
 
 
-def h_str(neg: bool, ipi: int, b0: bool, b1: bool, b2: bool, b3: bool, b4: bool, b5: bool, cls: str, form: str) -> None:
+def h_str(neg: bool, ipi: int, b0: bool, b1: bool, b2: bool, b3: bool, b4: bool, b5: bool, last_one: bool, delta: int, cls: str, form: str) -> None:
     """str()/join()/format of Vec and Angle classes use the canonical component text."""
     import srctools.math as sm
-    text = _mk_text(neg, ipi, (b0, b1, b2, b3, b4, b5))
-    mf = ModelFloat(text)
+    text = _mk_text(neg, ipi, (b0, b1, b2, b3, b4, b5), last_one)
+    delta = _residue(delta, text)
+    mf = ModelFloat(text, delta)
     c = getattr(sm, "Py_" + cls)
     obj = c.__new__(c)
     if "Vec" in cls:
@@ -566,7 +610,7 @@ def obligations(tier):
             bound="all reals; one operation per query, full operator table"),
         Obl("frozen.validation", MOD, "o_frozen_validate", engine="call", budget_s=300, desc="the same obligation in concrete mode on real floats"),
         Obl("format_float", MOD, "h_format_float", budget_s=600, per_path_s=60, desc="format_float on every formatter shape: canonical, never '-0', same value",
-            bound="5 integer parts x 64 fraction patterns x sign"),
+            bound="5 integer parts x 64 fraction patterns (+ last digit 1) x sign x a symbolic rounding residue |delta| < 5e-7"),
         Obl("format_float.witness", MOD, "h_format_float_w", budget_s=120, witness=True),
         Obl("str_join", MOD, "h_str", slices=strs, budget_s=900, per_path_s=60, desc="str()/join()/format() of Vec/Angle classes use the canonical text"),
     ]
